@@ -11,7 +11,7 @@ use std::sync::Once;
 use crate::gen::reads::{ReadSet, Recipe};
 use crate::pipeline::Entry3;
 use crate::props::gcase::GCase;
-use crate::props::{c11, c14, c15, c16, c18};
+use crate::props::{c07, c11, c13, c14, c15, c16, c17, c18};
 use crate::runner::{guarded, install_panic_hook, CheckResult};
 use crate::util::Seq;
 
@@ -126,12 +126,14 @@ pub fn c15_vcase(u: &mut Unstructured) -> AResult<c15::VCase> {
     }
     let set_before = seq(u, 70)?;
     let backing = seq(u, 400)?;
+    let build = if u.arbitrary()? { u.arbitrary()? } else { 0 };
     Ok(c15::VCase {
         backing,
         origin,
         first,
         steps,
         set_before,
+        build,
     })
 }
 
@@ -276,5 +278,75 @@ pub fn gcase(u: &mut Unstructured, k: usize) -> AResult<GCase> {
         shards,
         shard_pick,
         aux,
+    })
+}
+
+pub fn c17_case(u: &mut Unstructured, words: usize) -> AResult<c17::Case> {
+    let max_len = (words * 64 - 8) / 2;
+    let n = match u.int_in_range(0..=3)? {
+        0 => max_len,
+        1 => max_len - u.int_in_range(0..=3)?,
+        2 => (32 * u.int_in_range(0..=words - 1)? + u.int_in_range(0..=2)?).min(max_len),
+        _ => u.int_in_range(0..=max_len)?,
+    };
+    let nops = u.int_in_range(0..=12)?;
+    let mut ops = Vec::new();
+    for _ in 0..nops {
+        ops.push(match u.int_in_range(0..=5)? {
+            0 => c17::Op::Set(u.arbitrary()?, u.arbitrary::<u8>()? & 3),
+            1 => c17::Op::Rc,
+            _ => c17::Op::SetSlice(u.arbitrary()?, u.arbitrary()?, seq_exact(u, 32)?),
+        });
+    }
+    Ok(c17::Case { seq: seq_exact(u, n)?, ops })
+}
+
+pub fn c13_case(u: &mut Unstructured, k: usize) -> AResult<c13::Case> {
+    let lflank = u.int_in_range(0..=70)?;
+    let rflank = u.int_in_range(0..=70)?;
+    let bexts = u.arbitrary()?;
+    let sub = (u.arbitrary()?, u.arbitrary()?);
+    let n = match u.int_in_range(0..=4)? {
+        0 => (k + u.int_in_range(0..=2)?).saturating_sub(1),
+        1 => 32usize * u.int_in_range(1usize..=4)? + u.int_in_range(0usize..=2)? - 1,
+        2 => u.int_in_range(0..=k + 40)?,
+        _ => u.int_in_range(0..=3 * k + 200)?,
+    };
+    Ok(c13::Case {
+        seq: seq_exact(u, n)?,
+        lflank,
+        rflank,
+        bexts,
+        sub,
+    })
+}
+
+pub fn c07_case(u: &mut Unstructured, p: usize) -> AResult<c07::Case> {
+    let k_extra: u16 = match u.int_in_range(0..=5)? {
+        0 => 0,
+        1 => 1,
+        2 => u.int_in_range(41..=299)?,
+        _ => u.int_in_range(0..=40)?,
+    };
+    let score = match u.int_in_range(0..=7)? {
+        0 => c07::Score::Rank,
+        1 => c07::Score::Perm(u.arbitrary()?),
+        2 => c07::Score::PermRc(u.arbitrary()?),
+        3 => c07::Score::Const(*u.choose(&[0u16, 1, 7, 65535])?),
+        4 => c07::Score::Mod(u.int_in_range(1..=5)?),
+        5 => c07::Score::AtCount,
+        6 => c07::Score::Const(u.arbitrary()?),
+        _ => c07::Score::Hash64(u.arbitrary()?),
+    };
+    let container = u.int_in_range(0..=3)?;
+    let alpha = u.int_in_range(1..=4)? as u8;
+    let k = p + k_extra as usize;
+    let extra = u.int_in_range(0..=400)?;
+    let seq: Seq = seq_exact(u, k + extra)?.into_iter().map(|b| b % alpha).collect();
+    Ok(c07::Case {
+        seq,
+        k_extra,
+        score,
+        container,
     })
 }
